@@ -26,7 +26,33 @@ where
                             break;
                         }
                         let hi = (lo + chunk).min(total);
-                        f(lo, hi, &mut r);
+                        // A panic that escapes the per-call guards: if it
+                        // was raised inside the crate under test (its
+                        // location is under /repo/src or an arch copy of it)
+                        // it is a finding of class "panic"; otherwise the
+                        // harness itself is broken.
+                        let res = std::panic::catch_unwind(std::panic::AssertUnwindSafe(|| {
+                            let mut part = Report::default();
+                            f(lo, hi, &mut part);
+                            part
+                        }));
+                        match res {
+                            Ok(part) => r.merge(part),
+                            Err(_) => {
+                                let msg = crate::take_panic_msg();
+                                if msg.contains("/repo/src/") || msg.contains("memchr-verif-copy") {
+                                    r.violation(crate::Violation {
+                                        class: "panic".into(),
+                                        key: lo,
+                                        what: format!("[panic] the crate panicked while the engine prepared or ran work items {}..{}: {}", lo, hi, msg),
+                                        replay_argv: vec![],
+                                        detail: serde_json::json!({"class": "panic", "items": [lo, hi], "message": msg}),
+                                    });
+                                } else {
+                                    r.machinery_errors.push(format!("engine panicked in work items {}..{}: {}", lo, hi, msg));
+                                }
+                            }
+                        }
                     }
                     r
                 })
